@@ -64,8 +64,8 @@ class Script:
 
 SOLVERS = {
     "cvc5-int": ["cvc5", "--lang", "smt2", "--incremental", "--solve-bv-as-int=sum"],
-    "cvc5-bv": ["cvc5", "--lang", "smt2", "--incremental", "--tlimit-per=5000"],
-    "z3": ["/usr/bin/z3", "-smt2", "-t:3000"],
+    "cvc5-bv": ["cvc5", "--lang", "smt2", "--incremental", "--tlimit-per=1500"],
+    "z3": ["/usr/bin/z3", "-smt2", "-t:1000"],
 }
 
 
